@@ -2277,7 +2277,6 @@ class Recipe:
             elif operator == 'solution':
                 dest = step.to[0]
                 dest_name = dest.name
-                step.frm.append(None)
                 solute, solvent, kwargs = step.operands
 
                 solute_names = ', '.join([solute.name for solute in solute]) if isinstance(solute, Iterable) else solute.name
@@ -2300,12 +2299,17 @@ class Recipe:
                 if isinstance(solvent, Container):
                     # containers can change while baking the recipe
                     solvent = self.results[solvent.name]
+                    # the solvent container is what this step draws from
+                    step.frm[0] = solvent
+                    step.objects_used.add(solvent.name)
                 results = Container.create_solution(solute, solvent, dest_name, **kwargs)
                 if isinstance(solvent, Container):
                     self.used.add(solvent.name)
                     self.results[solvent.name], self.results[dest_name] = results
+                    step.frm.append(self.results[solvent.name])
                 else:
                     self.results[dest_name] = results
+                    step.frm.append(None)
                 step.substances_used = self.results[dest_name].get_substances()
                 step.to.append(self.results[dest_name])
             elif operator == 'solution_from':
